@@ -371,14 +371,20 @@ func c03Run(c *h.Ctx) {
 			}
 		default: // batch update
 			var leaves []string
-			for j := r.Intn(3); j > 0 && len(known) > 0; j-- {
+			for j := r.Intn(4); j > 0 && len(known) > 0; j-- {
 				id := known[r.Intn(len(known))]
+				if len(leaves) > 0 && r.Intn(4) == 0 {
+					id = leaves[0]
+				}
 				dup := false
 				for _, l := range leaves {
 					dup = dup || l == id
 				}
 				if !dup {
 					leaves = append(leaves, id)
+				} else if r.Intn(2) == 0 {
+					leaves = append(leaves, id) // the same leaver named twice: still one player, one freed seat
+					c.Feature("update:leaver-named-twice")
 				}
 			}
 			leavesOK := true
